@@ -156,11 +156,10 @@ example : (parseNsfLine "4-Be-9,100,3/2,7.79(1),,,,7.63(2),0.0018(9),7.63(2),0.0
 
 /-! ## Part 2 — the embedded tables (kernel-checked on every run) -/
 
-def nsfKey (r : NsfRow) : Nat × Nat := (r.z, r.a)
 
 /-- `nsftable`: keys `(Z, A)` (A = 0 for the element row) strictly increasing, hence distinct;
     an element row precedes its isotopes -/
-theorem nsf_keys_sorted : strictSorted (PtGen.nsfRows.map nsfKey) = true := by decide +kernel
+theorem nsf_keys_sorted : strictSorted (PtGen.nsfRows.map nsfKeyOf) = true := by decide +kernel
 
 /-- every row names an element of the table by number and symbol and has an absorption value
     (`-None` would be a TypeError) -/
@@ -177,13 +176,8 @@ theorem nsf_isotopes_have_mass :
 theorem totals_positive :
     PtGen.nsfRows.all (fun r => r.tot == .missing || decide r.tot.Pos) = true := by decide +kernel
 
-/-- pointer check: every row's atom points to the record of that very row -/
-def ownPointers (p : Ptrs) (rows : List NsfRow) : Bool :=
-  (List.range rows.length).all fun i => match rows[i]? with
-    | some r => (if r.a = 0 then p.elId r.z else p.isoId r.z r.a) == i + 1
-    | none => false
-
-theorem every_atom_owns_its_row : ownPointers (ptrs PtGen.nsfRows) PtGen.nsfRows = true := by decide +kernel
+theorem nsf_keys_distinct : (PtGen.nsfRows.map nsfKeyOf).Nodup :=
+  nodup_of_strictSorted _ nsf_keys_sorted
 
 /-- elements without a row of their own and exactly one isotope row -/
 def singleIsotope (rows : List NsfRow) (z : Nat) : Option Nat :=
@@ -253,20 +247,11 @@ def atomRec (st : NsfState α) (z a : Nat) : NRec α :=
 
 theorem atomRec_of_row (env : NsfEnv α) (i : Nat) (r : NsfRow) (h : PtGen.nsfRows[i]? = some r) :
     atomRec (Nsf.loadRows env PtGen.nsfTables) r.z r.a = (Nsf.loadRows env PtGen.nsfTables).getRec (i + 1) := by
-  have hi : i < PtGen.nsfRows.length := (List.getElem?_eq_some_iff.mp h).1
-  have := List.all_eq_true.mp every_atom_owns_its_row i (List.mem_range.mpr hi)
-  rw [h] at this
-  simp only [beq_iff_eq] at this
+  have := atom_owns_row env PtGen.nsfTables nsf_keys_distinct i r h
   unfold atomRec NsfState.elNeutron NsfState.isoNeutron
   split
-  · rename_i ha
-    rw [loadRows_elId]; rw [if_pos ha] at this
-    show (Nsf.loadRows env PtGen.nsfTables).getRec ((ptrs PtGen.nsfRows).elId r.z) = _
-    rw [this]
-  · rename_i ha
-    rw [loadRows_isoId]; rw [if_neg ha] at this
-    show (Nsf.loadRows env PtGen.nsfTables).getRec ((ptrs PtGen.nsfRows).isoId r.z r.a) = _
-    rw [this]
+  · rename_i ha; rw [if_pos ha] at this; rw [this]
+  · rename_i ha; rw [if_neg ha] at this; rw [this]
 
 /-- **all 364 rows**: the element or isotope a row names reports that row's b+, b−, coherent,
     incoherent, absorption, E flag, abundance and complex b_c -/
